@@ -82,7 +82,7 @@ sec9 = ["## 9. Seeded changes: which check catches what", "",
  "of the program, another component's clock, the collector's gap, call sequences on a holder ...), and the *specification* -- not just the driver -- was",
  "extended until the change was caught; no check was loosened. Extending it found five more genuine defects on the way (`f401b3b`, `6d15e73`, `b7b6f7a`, `fb5d6ec`,",
  "`C18-set-reorders-other-values`). Final state: every live change is caught by the quick tier (table below), 4 are neutralised by my own fixes.",
- "The notes column says what was added.", "",
+ "The notes column says what was added. (A `-` in the violations column: measured with the first version of `bin/seedmatrixwt`, which kept the exit code only.)", "",
  "| seed | change (one line) | caught by (quick tier) | rc | violations | notes |", "|---|---|---|---|---|---|"]
 NOTES = {
  'C02E': 'missed at first; every endpoint route is followed by its escape twin (found `b7b6f7a`)',
